@@ -53,4 +53,21 @@ GenCInit ==
                         IF p = "grpc" /\ sd = "client" THEN "ok" ELSE "none"))
   /\ script = <<>> /\ ew = FALSE
 GenCSpec == GenCInit /\ [][FALSE]_gvars
+
+(* D: memory attacks (C09): a highly compressible payload (wire size <= N << inflated size), a prefix that
+   declares a gigabyte that never arrives, and the largest possible limit *)
+BombF == [flag |-> 1, len |-> 64, ilen |-> 67108864, body |-> "msg", id |-> 9, corrupt |-> FALSE]
+LieF  == [flag |-> 0, len |-> 1073741824, ilen |-> 1073741824, body |-> "msg", id |-> 9, corrupt |-> FALSE, lie |-> TRUE]
+GenDInit ==
+  /\ \E p \in {"connect", "grpc", "grpcweb"}, sd \in {"client", "handler"}, atk \in {"bomb", "lie", "maxlimit"}, pos \in 1..2 :
+       LET pre == [i \in 1..(pos - 1) |-> LMsg(20, i)]
+           tr == IF p = "grpc" /\ sd = "client" THEN "ok" ELSE "none"
+           tf == IF p = "grpc" \/ sd = "handler" THEN <<>> ELSE <<EndOK(p)>>
+       IN IF atk = "bomb"
+          THEN InitWith(Base(p, sd, 131072, "gzip", pre \o <<BombF>> \o tf, 2000000000, "eof", tr) @@ [bomb |-> TRUE])
+          ELSE IF atk = "lie"
+          THEN InitWith(Base(p, sd, 131072, "none", pre \o <<LieF>>, BLen(pre) + 13, "eof", "none") @@ [bomb |-> TRUE])
+          ELSE InitWith(Base(p, sd, 0, "none", pre \o <<LMsg(40, 9)>> \o tf, 2000000000, "eof", tr) @@ [maxlimit |-> TRUE])
+  /\ script = <<>> /\ ew = FALSE
+GenDSpec == GenDInit /\ [][FALSE]_gvars
 =============================================================================
